@@ -227,14 +227,18 @@ type c07Env struct {
 	root     string
 	maxDepth int
 
-	mu          sync.Mutex
-	labelCounts map[string]int
-	stageLabels map[string]map[string]int // coarse stage -> label -> images
-	hashes      int
-	deduped     int
-	byDepth     map[int]int
-	points      int64
-	shapeImgs   map[string]int
+	mu            sync.Mutex
+	labelCounts   map[string]int
+	stageLabels   map[string]map[string]int // coarse stage -> label -> images
+	hashes        int
+	deduped       int
+	byDepth       map[int]int
+	points        int64
+	th            bool
+	tornRecovered map[string]int // class -> variants recovered
+	tornKinds     map[string]int // steps by kind (write, rename, removal, none, first)
+	tornSkipped   map[string]int // steps that changed several entries at once (not decomposed)
+	shapeImgs     map[string]int
 }
 
 // c07Case is the recovery of the images of one recorded reap of one shape.
@@ -313,8 +317,18 @@ func (c *c07Case) verify(s *Store, phase, coarse string, chain []string) bool {
 // recovered recursively.
 func (c *c07Case) recover(img vfs.Image, depth int, chain []string) {
 	e := c.e
-	coarse, fine := c07Stage(img.Dir, c.l)
-	chain = append(append([]string{}, chain...), fmt.Sprintf("%s#%d{%s}", img.Label, img.Hits, coarse))
+	stage, fine := c07Stage(img.Dir, c.l)
+	coarse := stage // used in violation class keys: the reap stage, plus the kind of torn call for derived images
+	if img.Torn != "" {
+		coarse += ":" + c07TornClass(img.Torn)
+		fine += " | torn: " + c07Short(img.Torn)
+		chain = append(append([]string{}, chain...), fmt.Sprintf("inside the call before %s#%d{%s: %s}", img.Label, img.Hits, stage, c07Short(img.Torn)))
+		e.mu.Lock()
+		e.tornRecovered[c07TornClass(img.Torn)]++
+		e.mu.Unlock()
+	} else {
+		chain = append(append([]string{}, chain...), fmt.Sprintf("%s#%d{%s}", img.Label, img.Hits, stage))
+	}
 	if err := c.place(img.Dir); err != nil {
 		e.t.Errorf("c07: placing image: %v", err)
 		return
@@ -322,15 +336,18 @@ func (c *c07Case) recover(img vfs.Image, depth int, chain []string) {
 	e.r.Eval(1)
 	e.mu.Lock()
 	e.byDepth[depth]++
-	if e.stageLabels[coarse] == nil {
-		e.stageLabels[coarse] = map[string]int{}
+	if img.Torn == "" {
+		if e.stageLabels[stage] == nil {
+			e.stageLabels[stage] = map[string]int{}
+		}
+		e.stageLabels[stage][img.Label]++
 	}
-	e.stageLabels[coarse][img.Label]++
 	e.mu.Unlock()
 
 	var rec *vfs.Recorder
 	var un func()
-	if depth < c.depth {
+	if depth < c.depth && (img.Torn == "" || e.th) { // quick tier: the recovery of a torn variant is not recorded again
+
 		c.imgSeq++
 		rec = &vfs.Recorder{Root: c.work, ImgDir: filepath.Join(c.tmp, fmt.Sprintf("imgs-%d", c.imgSeq)), HashNameOnly: c07IsShm}
 		un = vfs.InstallLocal(rec)
@@ -394,7 +411,13 @@ func (c *c07Case) recover(img vfs.Image, depth int, chain []string) {
 		}
 	}()
 	e.r.Distinct(fmt.Sprintf("%s|%s|depth%d|%s", img.Label, coarse, min(depth, 2), outcome))
-	e.r.Sample(map[string]any{"shape": c.b.Shape.Name, "crash_chain": chain, "image": fine, "recovery": outcome})
+	// byte counts of a torn plan depend on the length of the scratch path: not in the (reproducible) samples
+	scrub := func(x string) string { return c07BytesRe.ReplaceAllString(x, "a prefix of the bytes") }
+	sc := make([]string, len(chain))
+	for i, x := range chain {
+		sc[i] = scrub(x)
+	}
+	e.r.Sample(map[string]any{"shape": c.b.Shape.Name, "crash_chain": sc, "image": scrub(fine), "recovery": outcome})
 
 	if rec == nil {
 		return
@@ -421,9 +444,66 @@ func (c *c07Case) recover(img vfs.Image, depth int, chain []string) {
 		e.hashes++
 		e.mu.Unlock()
 		c.recover(im, depth+1, chain)
+		if e.th {
+			c.torn(rec, im, depth+1, chain)
+		}
 	}
 	os.RemoveAll(rec.ImgDir)
 }
+
+// torn derives the images a process killed INSIDE the call that produced im can
+// leave (engine/vfs TornVariants) and recovers every one not yet seen.
+func (c *c07Case) torn(rec *vfs.Recorder, im vfs.Image, depth int, chain []string) {
+	e := c.e
+	vars, kind, err := rec.TornVariants(im, vfs.TornOptions{Overlay: true, Removals: true})
+	if err != nil {
+		e.t.Errorf("c07: deriving torn variants: %v", err)
+		return
+	}
+	e.mu.Lock()
+	switch {
+	case strings.HasPrefix(kind, "multi:"):
+		e.tornSkipped[c07IDRe.ReplaceAllString(kind, "<snap>")]++
+	default:
+		e.tornKinds[strings.SplitN(kind, ":", 2)[0]]++
+	}
+	e.mu.Unlock()
+	for _, v := range vars {
+		if c.seen[v.Hash] {
+			e.mu.Lock()
+			e.deduped++
+			e.mu.Unlock()
+			continue
+		}
+		c.seen[v.Hash] = true
+		e.mu.Lock()
+		e.hashes++
+		e.mu.Unlock()
+		c.recover(v, depth, chain)
+	}
+}
+
+var c07BytesRe = regexp.MustCompile(`[0-9]+ of [0-9]+ (new )?bytes( written| over the old [0-9]+)?`)
+
+var c07IDRe = regexp.MustCompile(`[0-9]+-[0-9]+-[0-9]{10,}`)
+
+// c07TornClass names the class of a torn call: the kind and the file's base name.
+func c07TornClass(desc string) string {
+	if strings.HasPrefix(desc, "removal") {
+		return "torn-removal"
+	}
+	f := desc
+	if i := strings.Index(f, " "); i > 0 {
+		f = f[:i]
+	}
+	kind := "torn-write"
+	if strings.Contains(desc, "in place") {
+		kind = "torn-overwrite"
+	}
+	return kind + "(" + filepath.Base(f) + ")"
+}
+
+func c07Short(desc string) string { return c07IDRe.ReplaceAllString(desc, "<snap>") }
 
 // c07IsShm: the content of SQLite's wal-index file does not take part in image
 // identity (its bytes vary from run to run; the first connection after a crash
@@ -553,6 +633,7 @@ func (c *c07Case) run(global bool) {
 	e.mu.Unlock()
 	for _, im := range imgs {
 		c.recover(im, 1, nil)
+		c.torn(rec, im, 1, nil)
 	}
 }
 
@@ -562,8 +643,8 @@ func TestVerif_C07(t *testing.T) {
 	th := r.Thorough()
 	maxFullWALs := r.Pick(1, 2)
 	maxDepth := r.Pick(2, 8)
-	r.Rule(fmt.Sprintf("shapes = {no older full, one older full} x {newest full with 0..%d WAL segments in its directory} x {every sequence of 0..3 incremental snapshots of 1..2 WAL segments} (512-byte-page databases, distinct content per segment, built with the real sink code); for each shape Store.Reap() runs on a private copy with the crash recorder installed (a crash point in front of every call statement of snapshot/store.go, snapshot/plan/{plan,executor,checker}.go, internal/fsutil/fsutil.go, snapshot/sidecar/sidecar.go, db/state.go); every distinct directory image (content hash) is placed back at the original path and recovered by NewStore; the recovery itself is recorded and every image not yet seen for the shape is recovered in turn, to crash depth %d (quick: depth 2 on the shapes with up to two incremental snapshots, depth 1 on the others; thorough: until no new image appears). evaluations = images recovered; states = distinct images; distinct = (crash-point label, reap stage of the image, depth class, recovery outcome)", maxFullWALs, maxDepth))
-	r.Assume("process-crash model at statement granularity: every completed file-system call is in the image, the call in flight is not; a crash inside one os.RemoveAll / os.WriteFile / os.Rename call or inside SQLite's own checkpoint is not enumerated (their atomicity is trusted, DESIGN 5); no power-loss (un-fsynced data) model")
+	r.Rule(fmt.Sprintf("shapes = {no older full, one older full} x {newest full with 0..%d WAL segments in its directory} x {every sequence of 0..3 incremental snapshots of 1..2 WAL segments} (512-byte-page databases, distinct content per segment, built with the real sink code); for each shape Store.Reap() runs on a private copy with the crash recorder installed (a crash point in front of every call statement of snapshot/store.go, snapshot/plan/{plan,executor,checker}.go, internal/fsutil/fsutil.go, snapshot/sidecar/sidecar.go, db/state.go); every distinct directory image (content hash) is placed back at the original path and recovered by NewStore; the recovery itself is recorded and every image not yet seen for the shape is recovered in turn, to crash depth %d (quick: depth 2 on the shapes with up to two incremental snapshots, depth 1 on the others; thorough: until no new image appears); in addition, for every step that changed exactly one regular file or only removed entries, the torn states of that call (see the note on torn calls) are derived and recovered the same way. evaluations = images recovered (recorded + derived); states = distinct images; distinct = (crash-point label, reap stage of the image, depth class, recovery outcome)", maxFullWALs, maxDepth))
+	r.Assume("process-crash model at statement granularity: every completed file-system call is in the image, the call in flight is not; plus, inside a call that writes one file or removes a directory tree, the torn states derived by engine/vfs TornVariants; a crash inside SQLite's own checkpoint is not enumerated (its atomicity is trusted, DESIGN 5); os.Rename is atomic; no power-loss (un-fsynced data) model")
 	r.Assume("two images that differ only in the bytes of a SQLite -shm (wal-index) file are the same crash state: the first connection opened after a crash holds the DMS lock alone and resets the file (SQLite os_unix.c); the file's presence still counts")
 	r.Assume("Store.fatalFn is set to nil (the seam of the package's own tests) so that a detected checksum mismatch is an observable error instead of a process exit")
 
@@ -611,7 +692,7 @@ func TestVerif_C07(t *testing.T) {
 		}
 	}
 
-	e := &c07Env{r: r, t: t, root: root, maxDepth: maxDepth, labelCounts: map[string]int{},
+	e := &c07Env{r: r, t: t, root: root, maxDepth: maxDepth, th: th, tornRecovered: map[string]int{}, tornKinds: map[string]int{}, tornSkipped: map[string]int{}, labelCounts: map[string]int{},
 		stageLabels: map[string]map[string]int{}, byDepth: map[int]int{}, shapeImgs: map[string]int{}}
 	mk := func(b *commonBuilt, via string, n int) *c07Case {
 		l, err := c07LayoutOf(b)
@@ -688,6 +769,28 @@ func TestVerif_C07(t *testing.T) {
 	r.Set("images_equal_to_an_earlier_image_of_the_shape", e.deduped)
 	for d, n := range e.byDepth {
 		r.Set(fmt.Sprintf("images_recovered_at_crash_depth_%d", d), n)
+	}
+	{
+		var tr, tk, ts []string
+		ntorn := 0
+		for k, n := range e.tornRecovered {
+			tr = append(tr, fmt.Sprintf("%s x%d", k, n))
+			ntorn += n
+		}
+		for k, n := range e.tornKinds {
+			tk = append(tk, fmt.Sprintf("%s x%d", k, n))
+		}
+		for k, n := range e.tornSkipped {
+			ts = append(ts, fmt.Sprintf("%s x%d", k, n))
+		}
+		sort.Strings(tr)
+		sort.Strings(tk)
+		sort.Strings(ts)
+		r.Set("torn_variants_recovered", ntorn)
+		r.Set("torn_variants_by_class", tr)
+		r.Set("steps_by_kind", tk)
+		r.Set("steps_not_decomposed", ts)
+		r.Note("Torn calls: for every step between an image and its predecessor state that changed exactly one regular file, the states a process killed inside that write leaves (file created/rewritten with 0, half, all-but-one bytes of the new content; the same prefixes laid over the old bytes; an extension cut half way and one byte short) and, for a step that only removed entries (os.RemoveAll), two partial removals, are derived and recovered like recorded images (%d variants; quick: for the recorded reap, thorough: also for every recorded recovery). Renames have no partial state. Steps that changed several entries at once happen inside SQLite's checkpoint (database + WAL + wal-index), which carries no crash points and is trusted: %v.", ntorn, ts)
 	}
 	var labels []string
 	for l, n := range e.labelCounts {
